@@ -124,6 +124,20 @@ def _orders_case(k, rng):
                     counters["second_name_rejected"] = counters.get("second_name_rejected", 0) + 1
                 except Exception as e:  # noqa: BLE001
                     failures.append(C.fail(None, "a second name raised %s instead of ValueError" % type(e).__name__, **wit))
+    # a first name that happens to equal the name the function would have had anyway (the name of a def, the text of
+    # an expression) is a name all the same: a second one is refused, also through cached()
+    from histogrammar.util import _defaultName
+
+    dn = _defaultName(_underlying(kind)) if hasattr(__import__("histogrammar.util").util, "_defaultName") else None
+    if dn is not None:
+        for how, mk in (("named", lambda: named(dn, _underlying(kind))), ("cached(named)", lambda: cached(named(dn, _underlying(kind)))), ("named(cached)", lambda: named(dn, cached(_underlying(kind))))):
+            try:
+                named("other", mk())
+                failures.append(C.fail(None, "a second name was accepted after %s with a first name equal to the default name %r" % (how, dn), **wit))
+            except ValueError:
+                counters["second_name_rejected_default"] = counters.get("second_name_rejected_default", 0) + 1
+            except Exception as e:  # noqa: BLE001
+                failures.append(C.fail(None, "a second name (first equal to the default) raised %s instead of ValueError" % type(e).__name__, **wit))
     # idempotence
     f = cached(_underlying(kind))
     if cached(f) is not f or serializable(f) is not f:
@@ -173,6 +187,8 @@ FUNCS = {
     "batch": ("lambda d: d['x'] + d['y']", lambda rng: {"x": np.array([rng.choice([0.0, 1.0]) for _ in range(rng.choice([1, 2]))]), "y": np.array([1.0, 2.0])[: rng.choice([1, 2])]}),
     "kwargs": ("lambda x, k=1: x * k", lambda rng: rng.choice([0.0, 1.0, 2.5, 3])),
     "two": ("lambda x, y: x - y", lambda rng: rng.choice([0.0, 1.0, 2.5, 3])),
+    # a function that hands back (part of) its argument: the cache must not keep, or hand out, the caller's own object
+    "column": ("lambda d: d['x']", lambda rng: {"x": np.array([rng.choice([0.0, 1.0, 2.5]) for _ in range(rng.choice([1, 2]))]), "y": np.array([1.0, 2.0])[: 1]}),
     # a function that shows the type of its argument: 1, True, 1.0, numpy.float64(1.0), numpy.int64(1) are five arguments
     "typed": ("lambda x: type(x).__name__ + ':' + repr(x * 1)", lambda rng: rng.choice([1, True, 1.0, np.float64(1.0), np.int64(1), 0, False, 0.0, np.float64(0.0), -4.0, np.float64(-4.0)])),
     # a read-only window on a buffer that its owner refills
@@ -286,6 +302,12 @@ def _shadow_case(k, rng):
         if (werr is None) != (gerr is None):
             failures.append(C.fail(None, "%s wrapper of `%s`: call %d (%s argument) %s but the raw function %s" % (wrap_kind, src, j, how, "raised %s: %s" % (type(gerr).__name__, str(gerr)[:100]) if gerr else "returned", "raised %s" % type(werr).__name__ if werr else "returned"), calls=log, **{"function": src, "wrapper": wrap_kind}))
             break
+        if werr is None and _same_result(want, got) and isinstance(got, np.ndarray) and got.flags.writeable and rng.random() < 0.3 and not any(got is a_ or (isinstance(a_, dict) and any(got is v_ for v_ in a_.values())) for a_ in args[0]):
+            # the caller goes on to use the result in place (q[nan_rows] = 0 ...): that must not reach the cache
+            got += 100.0
+            log[-1].append("result modified in place by the caller")
+            counters["results_modified_in_place"] = counters.get("results_modified_in_place", 0) + 1
+            continue
         if werr is None and not _same_result(want, got):
             failures.append(C.fail(None, "%s wrapper of `%s`: call %d (%s argument) returned %r, the raw function returns %r" % (wrap_kind, src, j, how, S.jsonable(got), S.jsonable(want)), calls=log, **{"function": src, "wrapper": wrap_kind}))
             break
